@@ -233,6 +233,9 @@ def _solve_one(args):
         if i not in seen:
             seen.add(i)
             pcs.append(c)
+    rec_ctx = (ob.info or {}).get('rec_ctx', True)
+    if rec_ctx:
+        pcs = pcs + _rec_axioms_for(pcs + [ob.goal])
     s.add(*pcs)
     if ob.kind == 'canary':
         r = s.check()
@@ -243,8 +246,20 @@ def _solve_one(args):
             if r2 == 'unsat':
                 return idx, 'unsat', time.time() - t0, None, 'cvc5'
         return idx, str(r), time.time() - t0, None, who
+    # portfolio.  (0) if the goal applies no recursive spec function, first try without the hypotheses that do
+    # (fewer hypotheses => sound; these are the ones that make the search seed-dependent); (1) z3 briefly;
+    # (2) cvc5 on the same query; (3) z3 with the full budget, another seed; (4) z3, assertions reversed.
+    if rec_ctx and not _has_rec(ob.goal):
+        sliced = [c for c in pcs if not _has_rec(c)]
+        if len(sliced) < len(pcs):
+            s0 = z3.Solver()
+            s0.set('timeout', min(timeout_ms, 6000))
+            s0.set('random_seed', seed)
+            s0.add(*sliced)
+            s0.add(z3.Not(ob.goal))
+            if s0.check() == z3.unsat:
+                return idx, 'unsat', time.time() - t0, None, 'z3-sliced'
     s.add(z3.Not(ob.goal))
-    # portfolio: z3 briefly, then cvc5 on the same query, then z3 with the full budget
     s.set('timeout', min(timeout_ms, 4000))
     r = s.check()
     backend = 'z3'
@@ -253,8 +268,6 @@ def _solve_one(args):
         r2, who = _external(smt2, 15, only='cvc5')
         if r2 == 'unsat':
             return idx, 'unsat', time.time() - t0, None, 'cvc5'
-        # z3 again with the full budget, then once more with the assertions in reverse order
-        # (its quantifier heuristics are sensitive to assertion order)
         for attempt, order in enumerate((pcs, list(reversed(pcs)))):
             s2 = z3.Solver()
             s2.set('timeout', timeout_ms if attempt == 0 else max(timeout_ms // 2, 5000))
@@ -265,17 +278,6 @@ def _solve_one(args):
             s = s2
             if r != z3.unknown:
                 break
-    if r == z3.unknown and not _has_rec(ob.goal):
-        # last stage: recursive spec functions (sums, membership) in hypotheses the goal does not mention make
-        # z3 give up early; proving the goal from fewer hypotheses is sound
-        sliced = [c for c in pcs if not _has_rec(c)]
-        if len(sliced) < len(pcs):
-            s3 = z3.Solver()
-            s3.set('timeout', min(timeout_ms, 15000))
-            s3.add(*sliced)
-            s3.add(z3.Not(ob.goal))
-            if s3.check() == z3.unsat:
-                return idx, 'unsat', time.time() - t0, None, 'z3-sliced'
     model = None
     smt2 = None
     if r == z3.sat:
@@ -305,10 +307,73 @@ def _has_rec(e):
         if z3.is_quantifier(t):
             todo.append(t.body())
         elif z3.is_app(t):
-            if t.decl().kind() == z3.Z3_OP_RECURSIVE:
+            if t.decl().kind() == z3.Z3_OP_RECURSIVE or _is_fuel(t.decl()):
                 return True
             todo.extend(t.children())
     return False
+
+
+def _is_fuel(decl):
+    from engine_call import REC_AXIOMS
+    return decl.kind() == z3.Z3_OP_UNINTERPRETED and decl.name() in REC_AXIOMS
+
+
+def _fuel_names(e, acc, seen):
+    todo = [e]
+    while todo:
+        t = todo.pop()
+        i = t.get_id()
+        if i in seen:
+            continue
+        seen.add(i)
+        if z3.is_quantifier(t):
+            todo.append(t.body())
+        elif z3.is_app(t):
+            if t.decl().kind() == z3.Z3_OP_UNINTERPRETED and t.num_args() > 0:
+                acc.add(t.decl().name())
+            todo.extend(t.children())
+
+
+def _rec_axioms_for(terms):
+    """Defining axioms of the fuel-encoded recursive spec functions mentioned (transitively) by `terms`."""
+    from engine_call import REC_AXIOMS
+    if not REC_AXIOMS:
+        return []
+    names, seen, out, done = set(), set(), [], set()
+    for t in terms:
+        _fuel_names(t, names, seen)
+    work = [n for n in names if n in REC_AXIOMS]
+    while work:
+        n = work.pop()
+        if n in done:
+            continue
+        done.add(n)
+        out += REC_AXIOMS[n]
+        more = set()
+        for ax in REC_AXIOMS[n]:
+            _fuel_names(ax, more, seen)
+        work += [m for m in more if m in REC_AXIOMS and m not in done]
+    return out
+
+
+def _rec_decls(e):
+    """Names of the recursive (define-fun-rec) functions a term applies."""
+    seen = set()
+    out = set()
+    todo = [e]
+    while todo:
+        t = todo.pop()
+        i = t.get_id()
+        if i in seen:
+            continue
+        seen.add(i)
+        if z3.is_quantifier(t):
+            todo.append(t.body())
+        elif z3.is_app(t):
+            if t.decl().kind() == z3.Z3_OP_RECURSIVE or _is_fuel(t.decl()):
+                out.add(t.decl().name())
+            todo.extend(t.children())
+    return out
 
 
 def _external(smt2, timeout_s, only=None):
